@@ -36,7 +36,7 @@ def sim_cfgs(params):
 
 
 def sim_execute(params, script, inject=None):
-    k = sk.Kernel(script=script, inject=inject, term=params["term"], settle=2, late_delay=1.5)
+    k = sk.Kernel(script=script, inject=inject, term=params["term"], settle=2, late_delay=1.5, master_pid=params.get("master_pid", sk.MASTER_PID))
     k.fs.dirs.add("/run")
     o = sk.run_arbiter(sim_cfgs(params), k)
     return k, o
@@ -139,6 +139,13 @@ def sim_part(thorough):
                         for stop in STOP_EVENTS:
                             do_mid = (len(pre) == 0 or thorough) and bind == "tcp"
                             tasks.append((params, pre, stop, do_mid))
+    # a master whose pid has seven digits (kernel.pid_max = 4194304 on 64-bit hosts), and one with a single digit
+    for mp in (1234567, 4194303, 7):
+        for bind in ("tcp", "unix"):
+            params = {"workers": 2, "timeout": 30, "term": "now", "bind": bind, "master_pid": mp}
+            for pre in ([], [("sig", "HUP")]):
+                for stop in STOP_EVENTS[:3]:
+                    tasks.append((params, pre, stop, False))
     # reloads that change graceful_timeout before the stop
     hup_pres = [[("sig", "HUP")], [("sig", "HUP"), ("tick",)], [("sig", "HUP"), ("sig", "HUP")], [("sig", "TTIN"), ("sig", "HUP")]]
     if thorough:
